@@ -17,10 +17,36 @@ package storage
 
 import (
 	"encoding/binary"
+	"errors"
 	"fmt"
 )
 
 const recordBatchHeaderMinSize = 61
+
+// ErrInvalidRecordBatch is returned when a produced record set carries header
+// fields the log cannot use to assign offsets.
+var ErrInvalidRecordBatch = errors.New("invalid record batch")
+
+// ValidateForAppend checks the client-supplied header fields that offset
+// assignment depends on. The log assigns offsets base..base+LastOffsetDelta to
+// the whole record set and only patches the first 8 bytes, so the delta must not
+// be negative (offsets would repeat or move backwards) and the record set must
+// be exactly one batch: a declared batch length has to cover the record set
+// (a second concatenated batch would keep its client-chosen base offset and
+// overlap the offsets of the next produce). A zero length field is tolerated as
+// "not declared".
+func (b RecordBatch) ValidateForAppend() error {
+	if b.LastOffsetDelta < 0 {
+		return fmt.Errorf("%w: last offset delta %d", ErrInvalidRecordBatch, b.LastOffsetDelta)
+	}
+	if len(b.Bytes) >= recordBatchHeaderMinSize {
+		batchLen := int32(binary.BigEndian.Uint32(b.Bytes[8:12]))
+		if batchLen != 0 && int64(batchLen)+12 != int64(len(b.Bytes)) {
+			return fmt.Errorf("%w: batch length %d does not match record set of %d bytes", ErrInvalidRecordBatch, batchLen, len(b.Bytes))
+		}
+	}
+	return nil
+}
 
 // NewRecordBatchFromBytes parses Kafka record batch metadata and returns a RecordBatch struct.
 func NewRecordBatchFromBytes(data []byte) (RecordBatch, error) {
